@@ -255,6 +255,17 @@ impl<T: Clone + Default> Vec1<T> for ChkOut<T> {
         ChkOut(iter.collect())
     }
 
+    /// a trusted-length source is collected safely, and what it announced is compared with what it
+    /// yielded (the real containers allocate the announced length and expose it as initialised)
+    fn collect_from_trusted<I: tevec::prelude::TrustedLen<Item = T>>(iter: I) -> Self {
+        let hint = iter.size_hint();
+        let v: Vec<T> = iter.collect();
+        if hint.0 != v.len() || hint.1 != Some(v.len()) {
+            violation(format!("trusted source announced {:?} but yielded {} items", hint, v.len()));
+        }
+        ChkOut(v)
+    }
+
     fn uninit(len: usize) -> Self::Uninit {
         ChkUninit {
             slots: (0..len).map(|_| None).collect(),
